@@ -32,3 +32,8 @@ impl Trace {
         self.flush();
     }
 }
+
+impl Drop for Trace {
+    /// a panic of the harness itself (outside catch_unwind) unwinds through the context: what was recorded is kept
+    fn drop(&mut self) { self.flush(); }
+}
